@@ -39,9 +39,15 @@ where
     type Error = D::Error;
 
     fn parse(&mut self, input: &mut I) -> Result<Self::Output, Self::Error> {
+        let original_position = input.get_position();
         match self.decorated().parse(input) {
             Ok(ok) => self.map_ok(ok),
-            Err(err) if err.is_soft() => self.map_soft_error(err),
+            Err(err) if err.is_soft() => {
+                // a soft failure leaves the input where it started,
+                // also when the decorated parser does not undo it itself
+                input.set_position(original_position);
+                self.map_soft_error(err)
+            }
             Err(err) => Err(err),
         }
     }
